@@ -57,7 +57,7 @@ def run(ctx):
         "GridG": grid_g,
         "GridEvery": (3 if grid_g == 2 else 40) if q else 3,
         "GridOff": 0,
-        "RealKinds": set(range(1, 7)),
+        "RealKinds": set(range(1, 16)),
         "RealPlaces": set(rnd.sample(range(1, 64), 12)) if q else set(range(1, 64)),
         "RealSizes": set(rnd.sample(range(12), 5)) if q else set(range(12)),
         "RealEvery": 12 if q else 2,
@@ -146,7 +146,7 @@ def run(ctx):
     ctx.replay(pred, timeout=1200)
 
     # ------------------------------------------------------------------ replay 2: W2 regions and float regions
-    ctx.replay(by.get("grid", []), timeout=2400)
+    ctx.replay(by.get("grid", []) + by.get("gridline", []), timeout=2400)
     ctx.replay(by.get("region", []), timeout=2400)
 
     # ------------------------------------------------------------------ direction B: the spec judges logged results
